@@ -31,8 +31,18 @@ impl String {
     pub fn as_str(&self) -> &str { "" }
     pub fn as_ref(&self) -> &String { self }
 }
-pub fn error_message(_a: &String, _b: &str) {}
-pub fn path_error_message(_p: &Path, _e: IoError) {}
+// ---- scripted faults (all off unless a harness switches them on) and a record of the diagnostics ----
+pub static mut UNLISTABLE: u8 = 255;        // read_dir of this directory fails (permission denied)
+pub static mut BAD_ENTRY_IN: u8 = 255;      // listing this directory yields one unreadable entry (an Err item) in front of its entries
+pub static mut NO_FILETYPE: u8 = 255;       // file_type() of this entry fails
+pub static mut ZIP_CORRUPT: bool = false;   // the archive cannot be opened as a zip
+pub static mut ZIP_BAD_MEMBER: u8 = 255;    // by_index(i) fails for this member index
+pub static mut PIPE_CLOSED_AFTER: u32 = u32::MAX;   // check_file reports a closed pipe (Ok(false)) once this many rows were written
+pub static mut DIAG_COUNT: u32 = 0;
+pub static mut DIAG_LAST: u8 = 255;
+pub fn reset_faults() { unsafe { UNLISTABLE = 255; BAD_ENTRY_IN = 255; NO_FILETYPE = 255; ZIP_CORRUPT = false; ZIP_BAD_MEMBER = 255; PIPE_CLOSED_AFTER = u32::MAX; DIAG_COUNT = 0; DIAG_LAST = 255; } }
+pub fn error_message(a: &String, _b: &str) { unsafe { DIAG_COUNT += 1; DIAG_LAST = a.0; } }
+pub fn path_error_message(p: &Path, _e: IoError) { unsafe { DIAG_COUNT += 1; DIAG_LAST = p.0; } }
 pub mod util_shim {
     use super::*;
     pub fn canonical_path(p: &PathBuf) -> Result<String, String> { if p.0 .1 { Err(String(255)) } else { Ok(String(p.0 .0)) } }
@@ -45,26 +55,28 @@ impl FileType { pub fn is_dir(&self) -> bool { self.dir } pub fn is_symlink(&sel
 #[derive(Clone, Copy)] pub struct DirEntry(pub u8);
 impl DirEntry {
     pub fn path(&self) -> PathBuf { PathBuf(Path(self.0, false)) }
-    pub fn file_type(&self) -> io::Result<FileType> { Ok(FileType { dir: IS_DIR[self.0 as usize], link: IS_LINK[self.0 as usize] }) }
+    pub fn file_type(&self) -> io::Result<FileType> { if unsafe { NO_FILETYPE } == self.0 { return Err(IoError); } Ok(FileType { dir: IS_DIR[self.0 as usize], link: IS_LINK[self.0 as usize] }) }
     pub fn ino(&self) -> u64 { self.0 as u64 }
 }
-pub struct ReadDir { pub dir: u8, pub next: u8 }
+pub struct ReadDir { pub dir: u8, pub next: u8, pub bad_pending: bool }
 impl Iterator for ReadDir { type Item = io::Result<DirEntry>;
     fn next(&mut self) -> Option<io::Result<DirEntry>> {
+        if self.bad_pending { self.bad_pending = false; return Some(Err(IoError)); }
         while (self.next as usize) < N { let c = self.next; self.next += 1; if c != 0 && PARENT[c as usize] == self.dir { return Some(Ok(DirEntry(c))); } }
         None
     } }
 pub struct File;
 pub mod fs {
     use super::*;
-    pub fn read_dir(p: &Path) -> io::Result<ReadDir> { if p.1 || !IS_DIR[p.0 as usize] { Err(IoError) } else { Ok(ReadDir { dir: p.0, next: 1 }) } }
+    pub fn read_dir(p: &Path) -> io::Result<ReadDir> { if p.1 || !IS_DIR[p.0 as usize] || unsafe { UNLISTABLE } == p.0 { Err(IoError) } else { Ok(ReadDir { dir: p.0, next: 1, bad_pending: unsafe { BAD_ENTRY_IN } == p.0 }) } }
     pub struct File;
     // node 2 is a zip archive with two members
     impl File { pub fn open(p: &PathBuf) -> io::Result<super::File> { if p.0 .0 == 2 { Ok(super::File) } else { Err(IoError) } } }
 }
 pub mod std { pub mod fs { use super::super::*; pub fn read_link(p: &PathBuf) -> io::Result<PathBuf> { let n = p.0 .0 as usize; if IS_LINK[n] { Ok(PathBuf(Path(TARGET[n], TARGET_RELATIVE[n]))) } else { Err(IoError) } } } }
 pub mod zip { use super::*; pub struct ZipFile(pub u8); pub struct ZipArchive;
-    impl ZipArchive { pub fn new(_f: File) -> Result<ZipArchive, ()> { Ok(ZipArchive) } pub fn len(&self) -> usize { 2 } pub fn by_index(&mut self, i: usize) -> Result<ZipFile, ()> { Ok(ZipFile(i as u8 + 1)) } } }
+    impl ZipArchive { pub fn new(_f: File) -> Result<ZipArchive, ()> { if unsafe { ZIP_CORRUPT } { Err(()) } else { Ok(ZipArchive) } } pub fn len(&self) -> usize { 2 }
+        pub fn by_index(&mut self, i: usize) -> Result<ZipFile, ()> { if unsafe { ZIP_BAD_MEMBER } as usize == i { Err(()) } else { Ok(ZipFile(i as u8 + 1)) } } } }
 pub struct FileInfo(pub u8);
 pub fn to_file_info(f: &zip::ZipFile) -> FileInfo { FileInfo(f.0) }
 pub struct Repository;
@@ -91,5 +103,5 @@ impl Searcher {
     pub fn is_zip_archive(&self, s: &String) -> bool { s.0 == 2 }
     // stands for check_file with no WHERE clause: every entry handed over is counted (C06.found.accounting) and recorded
     // an archive member is recorded as 10 * member + entry
-    pub fn check_file(&mut self, e: &DirEntry, fi: &Option<FileInfo>) -> io::Result<bool> { let code = match fi { Some(m) => 10 * m.0 + e.0, None => e.0 }; if self.n < 12 { self.log[self.n] = code; self.n += 1; } self.found += 1; Ok(true) }
+    pub fn check_file(&mut self, e: &DirEntry, fi: &Option<FileInfo>) -> io::Result<bool> { let code = match fi { Some(m) => 10 * m.0 + e.0, None => e.0 }; if unsafe { PIPE_CLOSED_AFTER } <= self.found { return Ok(false); } if self.n < 12 { self.log[self.n] = code; self.n += 1; } self.found += 1; Ok(true) }
 }
